@@ -70,6 +70,17 @@ class Gen:
             i += 1
         return [l for l in h if l]
 
+def build_harness(ck):
+    return ck.cc("h_c05", ["h_c05.c", os.path.join(REPO, "src/allocator.c"), os.path.join(REPO, "src/errno_status.c")])
+
+def alloc_histories(ck):
+    """zix_ring_new / zix_ring_free under refusal patterns (used by C07 and C08): result and allocator event log vs Model/RingAlloc.lean."""
+    h = ["new 8"]
+    for size in [0, 1, 2, 3, 5, 8, 9, 1000, 4096, 4097, 65535, 65536]:
+        for mask in ["-", "0", "1", "0,1", "2", "1,2"]:
+            h.append("newa %s %d" % (mask, size)); ck.count_distinct(("newa", mask, size))
+    return [h]
+
 def run(ck):
     ck.level = "proof"
     ck.cov["rule"] = ("histories 'new <size>' + up to 300 write/read/peek/skip/reset/space/begin-amend*-commit|abandon calls; sizes 1..130, "
@@ -79,7 +90,7 @@ def run(ck):
     if not ck.build_driver(): return
     if not ck.prove(["ZixModel.Properties.C05", "ZixModel.Properties.C05History"]):
         ck.report_proof_failure("theorems about the ring model no longer build")
-    exe = ck.cc("h_c05", ["h_c05.c", os.path.join(REPO, "src/allocator.c"), os.path.join(REPO, "src/errno_status.c")])
+    exe = build_harness(ck)
     if not exe: return
     g = Gen(ck.rng)
     sizes = list(range(1, 131)) + [2 ** k + d for k in range(8, 17 if ck.tier == "quick" else 21) for d in (-1, 0, 1)]
